@@ -40,7 +40,11 @@ class XLFormula(XLType):
                 term = token.tvalue
                 if '!' not in term:
                     term = f'{self.sheet_name}!{term}'
-                self.terms.append(term)
+                if ':' not in term:
+                    # A cell is the same cell however it is anchored.
+                    term = term.replace('$', '')
+                if term not in self.terms:
+                    self.terms.append(term)
 
 
 @dataclass
